@@ -396,6 +396,14 @@ func (c *Ctx) ruleR04e(rule string) {
 					if p.eval(ee) == nsNonNil {
 						return
 					}
+					// ... or under a condition computed from that error (possibly by a helper)
+					if ei, isI := e0.(ssa.Instruction); isI && ei.Block() != nil {
+						for _, cd := range ssax.DominatingConds(ei.Block()) {
+							if mentions(cd.Val, ee, 0) {
+								return
+							}
+						}
+					}
 				}
 			}
 			if b1, f1, ok1 := fieldLoad(n0); ok1 {
@@ -426,4 +434,24 @@ func pkgOfFn(fn *ssa.Function) *types.Package {
 		return fn.Pkg.Pkg
 	}
 	return nil
+}
+
+// mentions: target occurs among the operands of v (through calls' arguments, comparisons, conversions).
+func mentions(v, target ssa.Value, depth int) bool {
+	if v == target {
+		return true
+	}
+	if depth > 6 {
+		return false
+	}
+	in, ok := v.(ssa.Instruction)
+	if !ok {
+		return false
+	}
+	for _, op := range in.Operands(nil) {
+		if *op != nil && mentions(*op, target, depth+1) {
+			return true
+		}
+	}
+	return false
 }
